@@ -64,6 +64,8 @@ def main():
     if only in (None, "silent"):
         for m in selftest.benign_entries():
             work.append(("silent", m["name"], os.path.join(HERE, m["patch"]), None))
+        for p in sorted(glob.glob(os.path.join(HERE, "benign", "*", "patch.diff"))):
+            work.append(("silent", "benign/" + os.path.basename(os.path.dirname(p)).replace("-", "/"), p, None))
         for bd in benign_dirs:
             for p in sorted(glob.glob(os.path.join(bd, "*", "*", "patch.diff")) + glob.glob(os.path.join(bd, "*", "patch.diff"))):
                 rel = os.path.relpath(os.path.dirname(p), bd).replace("-out", "")
